@@ -56,6 +56,7 @@
  *                  Extensions: bc/bc_ca/bc_pathlen/bc_crit, ku/ku_bits/ku_crit, eku/eku_mask/eku_crit,
  *                  san[]/nsan/san_crit (kind = GeneralName tag number: CG_GN_EMAIL 1, CG_GN_DNS 2,
  *                  CG_GN_URI 6, CG_GN_IP 7; value = arbitrary bytes of arbitrary length),
+ *                  ian[]/nian/ian_crit/ian_first (issuerAltName, same GeneralName encoding; cg_ian_add; default none),
  *                  ski/aki (arbitrary bytes), unk (1 = unknown non-critical, 2 = unknown CRITICAL
  *                  extension 1.3.6.1.4.1.99999.1), crldp (URI), rawext (pre-encoded Extension(s)).
  *                     char *cg_pem("CERTIFICATE", der, len)   PEM armour (malloc'd)
@@ -337,6 +338,7 @@ typedef struct cg_spec {
     const unsigned char *rawext; int rawextlen;   /* pre-encoded Extension SEQUENCE(s), appended last */
     const cg_key *signer;            /* key that really signs */
     int sigmode, flip_bit; const unsigned char *sig_override; int sig_override_len;
+    cg_gn ian[CG_MAXSAN]; int nian, ian_crit, ian_first;   /* issuerAltName (2.5.29.18) GeneralNames; default none. Emitted right behind the subjectAltName, or right before it when ian_first */
 } cg_spec;
 typedef struct { unsigned char *der; int len, tbs_off, tbs_len, sig_off, sig_len; } cg_cert;
 static void cg_cert_free(cg_cert *c) { free(c->der); memset(c, 0, sizeof *c); }
@@ -346,6 +348,11 @@ static void cg_san_add(cg_spec *s, int kind, const void *v, int len)
 {
     if (s->nsan >= CG_MAXSAN) return;
     cg_gn *g = &s->san[s->nsan++]; g->kind = kind; g->len = len > 128 ? 128 : len; memcpy(g->v, v, g->len);
+}
+static void cg_ian_add(cg_spec *s, int kind, const void *v, int len)
+{
+    if (s->nian >= CG_MAXSAN) return;
+    cg_gn *g = &s->ian[s->nian++]; g->kind = kind; g->len = len > 128 ? 128 : len; memcpy(g->v, v, g->len);
 }
 static void cg_ext(cg_buf *exts, const unsigned char *oid, int oidlen, int crit, cg_buf *val)
 {
@@ -359,7 +366,7 @@ static void cg_general_names(cg_buf *b, const cg_gn *g, int n)
 }
 static void cg_extensions(cg_buf *tbs, const cg_spec *s)
 {
-    static const unsigned char o_bc[] = { 0x55, 0x1d, 0x13 }, o_ku[] = { 0x55, 0x1d, 0x0f }, o_eku[] = { 0x55, 0x1d, 0x25 }, o_san[] = { 0x55, 0x1d, 0x11 },
+    static const unsigned char o_bc[] = { 0x55, 0x1d, 0x13 }, o_ku[] = { 0x55, 0x1d, 0x0f }, o_eku[] = { 0x55, 0x1d, 0x25 }, o_san[] = { 0x55, 0x1d, 0x11 }, o_ian[] = { 0x55, 0x1d, 0x12 },
                                o_ski[] = { 0x55, 0x1d, 0x0e }, o_aki[] = { 0x55, 0x1d, 0x23 }, o_cdp[] = { 0x55, 0x1d, 0x1f },
                                o_unk[] = { 0x2b, 0x06, 0x01, 0x04, 0x01, 0x86, 0x8d, 0x1f, 0x01 },  /* 1.3.6.1.4.1.99999.1 */
                                o_kp[] = { 0x2b, 0x06, 0x01, 0x05, 0x05, 0x07, 0x03, 0 }, o_any[] = { 0x55, 0x1d, 0x25, 0x00 };
@@ -382,7 +389,9 @@ static void cg_extensions(cg_buf *tbs, const cg_spec *s)
         if (s->eku_mask & CG_EKU_ANY) cg_oid(&q, o_any, 4);
         cg_wrap(&v, 0x30, &q); cg_ext(&exts, o_eku, 3, s->eku_crit, &v);
     }
+    if (s->nian && s->ian_first) { cg_buf v = { 0 }; cg_general_names(&v, s->ian, s->nian); cg_ext(&exts, o_ian, 3, s->ian_crit, &v); }
     if (s->nsan) { cg_buf v = { 0 }; cg_general_names(&v, s->san, s->nsan); cg_ext(&exts, o_san, 3, s->san_crit, &v); }
+    if (s->nian && !s->ian_first) { cg_buf v = { 0 }; cg_general_names(&v, s->ian, s->nian); cg_ext(&exts, o_ian, 3, s->ian_crit, &v); }
     if (s->ski) { cg_buf v = { 0 }; cg_tlv(&v, 0x04, s->skid, s->skidlen); cg_ext(&exts, o_ski, 3, 0, &v); }
     if (s->aki) { cg_buf v = { 0 }, q = { 0 }; cg_tlv(&q, 0x80, s->akid, s->akidlen); cg_wrap(&v, 0x30, &q); cg_ext(&exts, o_aki, 3, 0, &v); }
     if (s->crldp) {
